@@ -323,31 +323,45 @@ func runCheck(prop, tier string) int {
 	os.MkdirAll(replayDir, 0o755)
 	knownPrinted := map[string]bool{}
 	for _, p := range toReplay {
-		f := &p.g.Failure
-		mf := modelFile{Property: prop, Harness: p.h.Name, Pkg: p.h.Pkg, Entry: p.h.Entry, Kind: f.Kind, Label: f.Label, Tags: f.Tags,
-			Model: f.Model, Choices: f.Choices, Params: paramsFor(p.h, tier), Trace: f.Trace, Sched: f.Sched, SchedOrder: f.SchedOrder, Files: p.h.Files}
-		if mf.Model == nil {
-			mf.Model = map[string]uint64{}
-		}
-		name := fmt.Sprintf("%s-%s.json", sanitize(p.h.Name), shortHash(failureKey(f)))
+		// a group is reported once one of its instances reproduces natively
+		cands := append([]Failure{p.g.Failure}, p.g.Alts...)
+		name := fmt.Sprintf("%s-%s.json", sanitize(p.h.Name), shortHash(failureKey(&p.g.Failure)))
 		path := filepath.Join(replayDir, name)
-		writeJSON(path, mf)
 		timeout := 8 * time.Second
 		ok, why := false, ""
-		if p.h.NoNative {
-			ok, why = true, "native replay not available for this harness (engine counterexample only)"
-		} else {
+		var f *Failure
+		var mf modelFile
+		for ci := range cands {
+			f = &cands[ci]
+			mf = modelFile{Property: prop, Harness: p.h.Name, Pkg: p.h.Pkg, Entry: p.h.Entry, Kind: f.Kind, Label: f.Label, Tags: f.Tags,
+				Model: f.Model, Choices: f.Choices, Params: paramsFor(p.h, tier), Trace: f.Trace, Sched: f.Sched, SchedOrder: f.SchedOrder, Files: p.h.Files}
+			if mf.Model == nil {
+				mf.Model = map[string]uint64{}
+			}
+			writeJSON(path, mf)
+			if p.h.NoNative {
+				ok, why = true, "native replay not available for this harness (engine counterexample only)"
+				break
+			}
 			r := nb.run(p.h.Pkg, p.h.Entry, path, timeout)
 			ok, why = reproduces(f, r)
 			if !ok && f.Sched {
-				// schedule-dependent: the native scheduler cannot be forced; try a bounded number of free runs
-				for i := 0; i < 300 && !ok; i++ {
+				// schedule-dependent: the recorded order of scheduling points is forced natively; decisions the
+				// harness cannot force (select choice, map iteration order) vary from run to run: retry
+				tries := 12
+				if len(f.SchedOrder) == 0 {
+					tries = 100
+				}
+				for i := 0; i < tries && !ok; i++ {
 					r = nb.run(p.h.Pkg, p.h.Entry, path, timeout)
 					ok, why = reproduces(f, r)
 				}
 				if !ok {
-					why = "schedule-dependent counterexample did not show up in 300 free native runs (" + why + ")"
+					why = "schedule-dependent counterexample did not show up natively (" + why + ")"
 				}
+			}
+			if ok {
+				break
 			}
 		}
 		mf.Native = why
